@@ -214,6 +214,28 @@ func (e StdEng) Dot(x, y Tensor, opts ...FuncOpt) (retVal Tensor, err error) {
 			if ret, err = e.Inner(a, b); err != nil {
 				return nil, errors.Wrapf(err, opFail, "Dot")
 			}
+			switch {
+			case incr != nil:
+				if !incr.IsScalar() {
+					return nil, errors.Errorf(shapeMismatch, ScalarShape(), incr.Shape())
+				}
+				switch r := ret.(type) {
+				case float64:
+					incr.Set(0, incr.GetF64(0)+r)
+				case float32:
+					incr.Set(0, incr.GetF32(0)+r)
+				}
+				return incr, nil
+			case reuse != nil:
+				if reuse.len() != 1 {
+					return nil, errors.Errorf(shapeMismatch, ScalarShape(), reuse.Shape())
+				}
+				reuse.Set(0, ret)
+				if err = reuse.reshape(); err != nil {
+					return nil, errors.Wrapf(err, opFail, "Dot")
+				}
+				return reuse, nil
+			}
 			return New(FromScalar(ret)), nil
 		case b.IsMatrix():
 			// vector x matrix is computed as Bᵀ·a. The transpose is taken on a private view of b:
@@ -297,6 +319,14 @@ func (e StdEng) Dot(x, y Tensor, opts ...FuncOpt) (retVal Tensor, err error) {
 	var rd *Dense
 	if rd, err = a.TensorMul(b, axesA, axesB); err != nil {
 		panic(err)
+	}
+
+	if incr != nil {
+		if !incr.Shape().Eq(rd.Shape()) {
+			return nil, errors.Errorf(shapeMismatch, rd.Shape(), incr.Shape())
+		}
+		defer ReturnTensor(rd)
+		return e.Add(incr, rd, UseUnsafe())
 	}
 
 	if reuse != nil {
